@@ -53,7 +53,8 @@ OFF, GROUND, UNK = -2, -3, -9
 PAD = [-1, -1, -1, -1]
 SV_ABSENT = [OFF, OFF, OFF, GROUND]
 UNKNOWN = [UNK, UNK, UNK, UNK]
-VARIANTS = {(s, p, m): f"cV{int(s)}{int(p)}{int(m)}" for s in (0, 1) for p in (0, 1) for m in (0, 1)}
+VARIANTS = {(s, p, m, a): f"cV{int(s)}{int(p)}{int(m)}{int(a)}" for s in (0, 1) for p in (0, 1) for m in (0, 1) for a in (0, 1)}
+REPAIRED = "cV1111"
 
 
 # ======================================================================================= systems
@@ -324,10 +325,13 @@ def run_case(case: dict) -> dict:
 
     try:
         seq = seqs.build_sequence(seq_spec(phys, rho))
-        obs = [
-            Occupation(evaluation_times=ets), CorrelationMatrix(evaluation_times=[1.0]),
-            BitStrings(evaluation_times=[0.0, 1.0], num_shots=int(case.get("shots", 1000))), Energy(evaluation_times=[1.0]),
-        ]
+        shots = int(case.get("shots", 1000))
+        tagmode = case.get("tagmode", "base")
+        obs = [Energy(evaluation_times=[1.0])]
+        for sfx in ([None] if tagmode == "base" else ["x"] if tagmode == "suffix" else [None, "x"]):
+            kws = {} if sfx is None else {"tag_suffix": sfx}
+            obs += [Occupation(evaluation_times=ets, **kws), CorrelationMatrix(evaluation_times=[1.0], **kws),
+                    BitStrings(evaluation_times=[0.0, 1.0], num_shots=shots, **kws)]
         init = None
         amplitudes = None
         if case["given"]:
@@ -419,12 +423,21 @@ def run_case(case: dict) -> dict:
         ids = [str(q) for q in res.atom_order]
         out["atom_order"] = [int(q[1:]) if q.startswith("a") and q[1:].isdigit() else UNK for q in ids]
         tags = set(res.get_result_tags())
-        out["occupation"] = [np.real(np.asarray(o)).astype(float).tolist() for o in res.occupation] if "occupation" in tags else None
+
+        def grab(sfx: str) -> dict:
+            g: dict[str, Any] = {}
+            to, tc, tb = "occupation" + sfx, "correlation_matrix" + sfx, "bitstrings" + sfx
+            g["occupation"] = [np.real(np.asarray(o)).astype(float).tolist() for o in getattr(res, to)] if to in tags else None
+            g["corr"] = np.real(np.asarray(getattr(res, tc)[-1])).astype(float).tolist() if tc in tags else None
+            bsl = getattr(res, tb) if tb in tags else None
+            g["bitstrings"] = dict(bsl[-1]) if bsl else None
+            g["bitstrings0"] = dict(bsl[0]) if bsl and len(bsl) > 1 else None
+            return g
+
+        out.update(grab(""))
         out["occ_times"] = list(res.get_result_times("occupation")) if "occupation" in tags else None
-        out["corr"] = np.real(np.asarray(res.correlation_matrix[-1])).astype(float).tolist() if "correlation_matrix" in tags else None
+        out["x"] = grab("_x") if tagmode != "base" else None
         out["energy"] = float(res.energy[-1]) if "energy" in tags else None
-        out["bitstrings"] = dict(res.bitstrings[-1]) if "bitstrings" in tags else None
-        out["bitstrings0"] = dict(res.bitstrings[0]) if "bitstrings" in tags and len(res.bitstrings) > 1 else None
         ftag = [t for t in tags if t.startswith("fidelity")]
         out["fidelity"] = float(np.real(complex(getattr(res, ftag[0])[-1]))) if ftag else None
     except BaseException as ex:  # the code under test refused / crashed: an outcome, not a harness failure
@@ -504,6 +517,28 @@ def _match_label(val: float, table: list[float], scale: float = 1.0) -> int:
 
 
 def project(case: dict, obs: dict, ref: dict, alpha: float, tol: float | None = None, joint: bool = True) -> dict:
+    """Base-tag results and, if the run stored them, the results under the suffixed tags (occX / bitsX / corrX)."""
+    tagmode = case.get("tagmode", "base")
+    empty = {"occupation": None, "corr": None, "bitstrings": None, "bitstrings0": None}
+    if tagmode == "suffix" and obs["outcome"] == "ok":
+        rec = _project(case, {**obs, **(obs.get("x") or empty)}, ref, alpha, tol, joint)
+        rec.update(occX=rec["occ"], bitsX=rec["bits"], corrX=rec["corr"], occ=[], bits=[], corr=[])
+        if rec["numeric"] != "ok" and not rec["numeric"].startswith("energy"):
+            rec["numeric"] = "suffixed-" + rec["numeric"]
+        return rec
+    rec = _project(case, obs, ref, alpha, tol, joint)
+    rec.update(occX=[], bitsX=[], corrX=[])
+    if tagmode == "both" and obs["outcome"] == "ok":
+        rx = _project(case, {**obs, **(obs.get("x") or empty)}, ref, alpha, tol, joint)
+        rec.update(occX=rx["occ"], bitsX=rx["bits"], corrX=rx["corr"])
+        rec["margin_x"] = rx.get("margin", 0.0)
+        rec["bits_pmin"] = min(rec.get("bits_pmin", 1.0), rx.get("bits_pmin", 1.0))
+        if rec["numeric"] == "ok" and rx["numeric"] != "ok":
+            rec["numeric"] = "suffixed-" + rx["numeric"]
+    return rec
+
+
+def _project(case: dict, obs: dict, ref: dict, alpha: float, tol: float | None = None, joint: bool = True) -> dict:
     """What the real run did, in the vocabulary of QubitOrder.tla.  Numeric atoms are decided here
     (against the per-label reference); TLC evaluates the requirement on the result."""
     phys = case["phys"]
@@ -708,7 +743,8 @@ def project(case: dict, obs: dict, ref: dict, alpha: float, tol: float | None = 
 
 
 # ======================================================================================= TLC glue
-SCEN_FIELDS = ["backend", "n", "rho", "optp", "reorder", "spe", "dark", "given", "dim"]
+OBS_FIELDS = ("outcome", "atomOrder", "ham", "imat", "occ", "bits", "corr", "occX", "bitsX", "corrX", "numeric")
+SCEN_FIELDS = ["backend", "n", "rho", "optp", "reorder", "spe", "dark", "given", "dim", "tagmode"]
 
 
 def scen_of(case: dict) -> dict:
@@ -717,7 +753,7 @@ def scen_of(case: dict) -> dict:
         "backend": case["backend"], "n": n, "rho": list(case["rho"]), "optp": list(case["optp"]),
         "reorder": bool(case["reorder"]), "spe": bool(case["spe"]),
         "dark": [bool(x) for x in case["dark"]] if case["spe"] else [False] * n,
-        "given": bool(case["given"]), "dim": int(case["dim"]),
+        "given": bool(case["given"]), "dim": int(case["dim"]), "tagmode": case.get("tagmode", "base"),
     }
 
 
@@ -726,13 +762,15 @@ def scen_key(sc: dict) -> str:
 
 
 def parse_S(t: list) -> tuple[dict, dict]:
-    """<<"S", backend, n, rho, optp, reorder, spe, darkbits, given, dim, outcome, qperm, atomOrder, ham, wp, occ, bits, verdict, pair>>"""
-    sc = {"backend": t[1], "n": t[2], "rho": t[3], "optp": t[4], "reorder": t[5], "spe": t[6], "dark": t[7], "given": t[8], "dim": t[9]}
-    pred = {"outcome": t[10], "qperm": t[11], "atomOrder": t[12], "ham": t[13], "wp": t[14], "occ": t[15], "bits": t[16], "verdict": t[17], "pair": t[18]}
+    """<<"S", backend, n, rho, optp, reorder, spe, darkbits, given, dim, tagmode, outcome, qperm, atomOrder, ham, wp, occ, bits, occX, bitsX, verdict, pair>>"""
+    sc = {"backend": t[1], "n": t[2], "rho": t[3], "optp": t[4], "reorder": t[5], "spe": t[6], "dark": t[7], "given": t[8], "dim": t[9], "tagmode": t[10]}
+    pred = {"outcome": t[11], "qperm": t[12], "atomOrder": t[13], "ham": t[14], "wp": t[15], "occ": t[16], "bits": t[17], "occX": t[18], "bitsX": t[19],
+            "verdict": t[20], "pair": t[21]}
     return sc, pred
 
 
-def qo_cfg(variant: str, maxn: int, dim3: int, pair: int, backends: str, focus: str, fromfile: bool, log: bool, invs: list[str]) -> str:
+def qo_cfg(variant: str, maxn: int, dim3: int, pair: int, backends: str, focus: str, fromfile: bool, log: bool, invs: list[str],
+           tagmodes: str = "cTagsBase") -> str:
     t = f"""SPECIFICATION Spec
 CONSTANTS
   V <- {variant}
@@ -740,6 +778,7 @@ CONSTANTS
   MaxNDim3 = {dim3}
   MaxNPair = {pair}
   Backends <- {backends}
+  TagModes <- {tagmodes}
   Focus = "{focus}"
   FromFile = {"TRUE" if fromfile else "FALSE"}
   Log = {"TRUE" if log else "FALSE"}
@@ -753,11 +792,11 @@ INVARIANT InvRunAllAgrees
 
 
 def tlc_predictions(ctx, name: str, variant: str, *, maxn: int = 0, scen_file: Path | None = None, backends: str = "cBoth",
-                    focus: str = "all", dim3: int = 0, pair: int = 0, workers: int = 16) -> dict[str, dict]:
+                    focus: str = "all", dim3: int = 0, pair: int = 0, workers: int = 16, tagmodes: str = "cTagsBase") -> dict[str, dict]:
     """Scenario -> what the mechanism model predicts (enumerated, or for the scenarios of a file)."""
     env = {"SCEN_FILE": str(scen_file)} if scen_file else None
     res = run_tlc("MCQubitOrder", None, workdir=ctx.work, name=name, workers=workers, env=env,
-                  cfg_text=qo_cfg(variant, max(maxn, 2), dim3, pair, backends, focus, scen_file is not None, True, []))
+                  cfg_text=qo_cfg(variant, max(maxn, 2), dim3, pair, backends, focus, scen_file is not None, True, [], tagmodes))
     if res["violated"]:
         raise MachineryError(f"TLC run {name}: unexpected violation {res['violated']} (see {res['outfile']})")
     ctx.add_tlc(res)
@@ -777,7 +816,7 @@ def tlc_observed(ctx, name: str, records: list[dict], chunk: int = 3000) -> dict
         f = ctx.work / f"observed_{name}_{c0}.json"
         f.write_text(json.dumps(part))
         res = run_tlc("MCQubitOrderObs", None, workdir=ctx.work, name=f"observed_{name}_{c0}", workers=4, env={"OBS_FILE": str(f)},
-                      cfg_text="SPECIFICATION ObsSpec\nCONSTANTS\n  V <- cV111\n  MaxN = 2\n  MaxNDim3 = 0\n  MaxNPair = 0\n  Backends <- cBoth\n  Focus = \"all\"\n  FromFile = FALSE\n  Log = FALSE\nINVARIANT ObsVerdictPrinted\n")
+                      cfg_text="SPECIFICATION ObsSpec\nCONSTANTS\n  V <- cV1111\n  MaxN = 2\n  MaxNDim3 = 0\n  MaxNPair = 0\n  Backends <- cBoth\n  TagModes <- cTagsBase\n  Focus = \"all\"\n  FromFile = FALSE\n  Log = FALSE\nINVARIANT ObsVerdictPrinted\n")
         if res["violated"]:
             raise MachineryError(f"TLC observed-structure run {name}: {res['violated']} (see {res['outfile']})")
         ctx.add_tlc(res)
@@ -806,8 +845,13 @@ def detect_variant(ctx) -> tuple[str, dict]:
     phys2 = gen_phys(rng, 2, slm=False, given=False)
     p3 = run_case({**base, "phys": phys2, "id": "probe-small", "rho": [0, 1], "optp": [0, 1], "reorder": False, "spe": True, "dark": [False, True], "mode": "handset"})
     small = p3["outcome"] == "ok"
-    info = {"drive_labels_at_sites_for_perm_201": d_lab, "leakage_padding_outcome": p2["outcome"], "one_good_atom_outcome": p3["outcome"]}
-    return VARIANTS[(site_order, pad_dim, small)], info
+    p4 = run_case({**base, "id": "probe-suffixed-tags", "rho": [0, 1, 2], "optp": [2, 0, 1], "reorder": True, "spe": False, "dark": [False] * 3, "mode": "run", "tagmode": "both"})
+    if p4["outcome"] != "ok" or not p4.get("x") or p4["x"]["occupation"] is None or p4["occupation"] is None:
+        raise MachineryError(f"variant probe 4 failed: {p4['outcome']}")
+    all_tags = bool(np.allclose(np.asarray(p4["x"]["occupation"]), np.asarray(p4["occupation"]), atol=1e-9))
+    info = {"drive_labels_at_sites_for_perm_201": d_lab, "leakage_padding_outcome": p2["outcome"], "one_good_atom_outcome": p3["outcome"],
+            "occupation_x_equals_occupation_for_perm_201": all_tags}
+    return VARIANTS[(site_order, pad_dim, small, all_tags)], info
 
 
 def all_perms(n: int) -> list[list[int]]:
@@ -869,6 +913,7 @@ def tight_ref_case(case: dict, policy: str) -> tuple[str, dict] | None:
                   "dark": [False] * n, "mode": "reduced"}
     else:
         raise MachineryError(policy)
+    rc["tagmode"] = "base"
     key = json.dumps([case["phys"]["id"], rc["rho"], rc["dark"] if rc["spe"] else None, rc["given"], rc["dim"], rc.get("mode"), rc.get("extra_noise"), rc.get("precision")])
     rc["id"] = "ref:" + key
     rc["is_ref"] = True
@@ -938,9 +983,9 @@ def replay_cases(ctx, cases: list[dict], *, policy: str, name: str, alpha: float
             m = len(c["rho"])
             lab = {a: i for i, a in enumerate(sorted(c["rho"]))}
             r["sc"] = {"backend": c["backend"], "n": m, "rho": [lab[a] for a in c["rho"]], "optp": list(range(m)), "reorder": False,
-                       "spe": False, "dark": [False] * m, "given": bool(c["given"]), "dim": int(c["dim"])}
+                       "spe": False, "dark": [False] * m, "given": bool(c["given"]), "dim": int(c["dim"]), "tagmode": c.get("tagmode", "base")}
             r["obs"] = relabel_record(x["rec"], lab, c["phys"]["n"], c["rho"])
-        r["obs"] = {k: r["obs"][k] for k in ("outcome", "atomOrder", "ham", "imat", "occ", "bits", "corr", "numeric")}
+        r["obs"] = {k: r["obs"][k] for k in OBS_FIELDS}
     verd = tlc_observed(ctx, name, records)
     ctx.traces_validated += len(records)
     for r, x in zip(records, results):
@@ -956,6 +1001,6 @@ def relabel_record(rec: dict, lab: dict[int, int], n: int, kept: list[int]) -> d
         return lab.get(x, x) if isinstance(x, int) and x >= 0 else x
 
     out = dict(rec)
-    for k in ("atomOrder", "ham", "imat", "occ", "bits", "corr"):
+    for k in ("atomOrder", "ham", "imat", "occ", "bits", "corr", "occX", "bitsX", "corrX"):
         out[k] = f(rec[k])
     return out
